@@ -3,6 +3,7 @@ import CogentModel.Model.Composable
 import CogentModel.Model.ParallelBook
 import Driver.C14Codec
 import Driver.C14Rich
+import CogentModel.Gen.C14Select
 open CogentModel
 
 def handle (cmd : String) (j : J) : Except String J :=
@@ -28,6 +29,25 @@ def handle (cmd : String) (j : J) : Except String J :=
     let n ← (← j.get "n").toNat
     let order ← (← j.get "order").toListOf J.toNat
     pure (.arr ((ParallelBook.asCompleted (fun (x : Nat) => x * x) (List.range n) order).map fun (x : Nat) => .num (x : Int)))
+  | "select_gen" => do
+    -- the TRANSLATED selection of `_apply_to` (Gen/C14Select.lean): ids_self / ids_path = id_from_source on the element itself / on
+    -- Path(m.unique_id); dm = elements that are DataMembers; falsy = elements with bool(m) False; store = identifiers `in self.data_store`
+    let idsSelf ← (← j.get "ids_self").toListOf (J.toPairOf J.toNat J.toNat)
+    let idsPath ← (← j.get "ids_path").toListOf (J.toPairOf J.toNat J.toNat)
+    let dm ← (← j.get "dm").toListOf J.toNat
+    let falsy ← (← j.get "falsy").toListOf J.toNat
+    let store ← (← j.get "store").toListOf J.toNat
+    let inputs ← (← j.get "inputs").toListOf J.toNat
+    let look := fun (tbl : List (Nat × Nat)) (m : Nat) => ((tbl.find? (·.1 == m)).map (·.2)).getD m
+    let env : SelectPrims.SelEnv := {
+      isDataMember := fun m => dm.contains m, truthy := fun m => !falsy.contains m,
+      idFromSource := fun a => match a with
+        | .pathOfUniqueId m => look idsPath m
+        | .self m => look idsSelf m,
+      inStore := fun i => store.contains i }
+    match Gen.C14Select.applyToSelect env inputs with
+    | .error e => pure (.obj [("err", .str s!"{e.exc}: {e.msg}")])
+    | .ok ps => pure (.obj [("sel", .arr (ps.map fun p => .arr [.bool (SelectPrims.PIn.isProxy p), .num (p.member : Nat)]))])
   | _ => throw s!"unknown command {cmd}"
 
 def main : IO Unit := driverLoop handle
